@@ -265,6 +265,23 @@ func (m *memConnector) Connect(r *replication.Replica) error {
 	return nil
 }
 
+// histObserver records every entry the primary's log accepts, in order.
+type histObserver struct{ ents []walEnt }
+
+func (h *histObserver) add(e *wal.Entry) {
+	h.ents = append(h.ents, walEnt{Type: e.Type, Key: append([]byte{}, e.Key...), Val: append([]byte{}, e.Value...), Seq: e.SequenceNumber})
+}
+func (h *histObserver) OnWALEntryWritten(e *wal.Entry) { h.add(e) }
+func (h *histObserver) OnWALBatchWritten(start uint64, es []*wal.Entry) {
+	// the entries of one batch are stamped alike, with the number the batch starts at
+	for _, e := range es {
+		c := *e
+		c.SequenceNumber = start
+		h.add(&c)
+	}
+}
+func (h *histObserver) OnWALSync(uint64) {}
+
 // recording applier: every entry handed to the replica's engine, in order
 type recApplier struct {
 	inner   replication.WALEntryApplier
@@ -301,6 +318,7 @@ type repScenario struct {
 }
 
 type repResult struct {
+	LogReadBack string // non-empty: the primary's log read back differs from what was written
 	History   []walEnt // primary log in order
 	Applied   []walEnt
 	Primary   map[string]string
@@ -364,6 +382,10 @@ func runRep(dir string, sc repScenario, faults map[int]int) (*repResult, vsched.
 			cfg.CompressionCodec = sc.Codec
 			cfg.EnableCompression = sc.Codec != rp.CompressionCodec_NONE
 		}
+		// the primary's write history is recorded as it is written (log observer of the harness), not read back
+		// through the functions the primary itself uses to serve replicas
+		hist := &histObserver{}
+		pr.Eng.GetWAL().RegisterObserver("verif-history", hist)
 		prim, err := replication.NewPrimary(pr.Eng.GetWAL(), cfg)
 		if err != nil {
 			res.Problem = "HARNESS primary: " + err.Error()
@@ -476,10 +498,15 @@ func runRep(dir string, sc repScenario, faults map[int]int) (*repResult, vsched.
 			res.Replica = engView(rr.Eng)
 			res.Converged = viewString(res.Primary) == viewString(res.Replica)
 		}
-		// primary history from its log
+		res.History = hist.ents
+		// cross-check with the log read back (a difference is the primary's problem, reported with the C13 oracle)
 		if es, err := pr.Eng.GetWAL().GetEntriesFrom(0); err == nil {
+			var back []walEnt
 			for _, e := range es {
-				res.History = append(res.History, walEnt{Type: e.Type, Key: e.Key, Val: e.Value, Seq: e.SequenceNumber})
+				back = append(back, walEnt{Type: e.Type, Key: e.Key, Val: e.Value, Seq: e.SequenceNumber})
+			}
+			if p := checkAppliedPrefix(hist.ents, back); p != "" || len(back) != len(hist.ents) {
+				res.LogReadBack = fmt.Sprintf("the primary's log read back from sequence 0 holds %d entries, %d were written: %s", len(back), len(hist.ents), firstLine(p))
 			}
 		}
 		res.Applied = rec.Applied
